@@ -9,6 +9,8 @@ quadratic form `qform M x = Σ_{p q} x_p M_{pq} x_q` is non-negative for every `
 import NumqiProofs.Catalogue
 import NumqiProofs.CatalogueExplicit
 import NumqiProofs.CatalogueKets
+import NumqiProofs.CataloguePovm
+import Mathlib.Analysis.SpecialFunctions.Trigonometric.Basic
 
 set_option linter.unusedSectionVars false
 
@@ -277,6 +279,21 @@ theorem maxCoh_dm_projector (d r c : ℕ) :
   refine ⟨rfl, ?_, rfl, rfl⟩
   unfold dmMaxCoh; positivity
 
+/-- **Dicke states, full statement**: `Dicke(*klist)` is normalised for every occupation list. Open: it needs that the support
+is never empty (`dickeCount klist ≠ 0`, i.e. the sorted arrangement is found by the digit test) for *every* `klist`. -/
+def DickeNormalised.Statement : Prop :=
+  ∀ klist : List ℕ, 2 ≤ klist.length → ∑ x ∈ Finset.range (klist.length ^ klist.sum), (ketDicke klist x).sq = 1
+
+/-- proved fragment: normalised whenever the support is non-empty (all amplitudes are `1/√N`, `N` = size of the support) … -/
+theorem dicke_norm_partial (klist : List ℕ) (h : dickeCount klist ≠ 0) :
+    ∑ x ∈ Finset.range (klist.length ^ klist.sum), (ketDicke klist x).sq = 1 := ketDicke_norm_partial klist h
+
+/-- … and the support has the multinomial size for the occupation lists used in the correspondence run -/
+theorem dicke_count_table :
+    dickeCount [1, 1] = 2 ∧ dickeCount [2, 1] = 3 ∧ dickeCount [2, 2] = 6 ∧ dickeCount [3, 1] = 4 ∧ dickeCount [0, 2] = 1
+      ∧ dickeCount [1, 1, 1] = 6 ∧ dickeCount [2, 1, 1] = 12 ∧ dickeCount [3, 2] = 10 ∧ dickeCount [1, 0, 2] = 3
+      ∧ dickeCount [1, 1, 1, 1] = 24 ∧ dickeCount [2, 2, 1] = 30 := by decide +kernel
+
 /-! ## closed-form REE / EOF / GME of Werner and isotropic states vanish on the separable range
 
 `sqrt` is any function with `0 ≤ sqrt x` and `sqrt x · sqrt x = x` on `x ≥ 0` (`np.sqrt`); `v`, `v1`, `v2` stand for the
@@ -391,5 +408,63 @@ theorem isotropicGME_separable (sqrt : K → K) (hs0 : ∀ x, 0 ≤ sqrt x) (hsq
         _ = 1 / d + ((d : K) - 1) * ((d : K) - 1) / d + 2 * (((d : K) - 1) / d) := by rw [hu2, hw2, huw]
         _ = d := by field_simp; ring
     rw [hs]; field_simp; ring
+
+/-! ## unextendible product bases: the fixed tables with amplitudes `±√(rational)`
+
+`upbTableOrthonormal` is the exact (rational-arithmetic) test: every local vector has squared norm one and for every
+pair of product vectors some party has local overlap `Σ_k ± √(sq_k sq'_k)` whose terms cancel radicand by radicand.
+(The soundness of this test — equal radicands give equal square roots — is a two-line argument that is not formalised; the
+same facts are probed numerically on the implementation's arrays.) -/
+
+theorem upb_tiles_orthonormal : upbTableOrthonormal upbTiles = true := by decide +kernel
+theorem upb_feng4x4_orthonormal : upbTableOrthonormal upbFeng4x4 = true := by decide +kernel
+theorem upb_feng2x2x2x2_orthonormal : upbTableOrthonormal upbFeng2x2x2x2 = true := by decide +kernel
+
+/-- the test is not vacuous: it rejects the `tiles` table with one sign flipped -/
+example : upbTableOrthonormal
+    [ upbTiles.headD [], [ [sa 1 1 2, sa (-1) 1 2, s0], [s0, s0, s1], [s0, sa 1 1 2, sa 1 1 2], [s1, s0, s0], [sa 1 1 3, sa 1 1 3, sa 1 1 3] ] ] = false := by
+  decide +kernel
+
+/-! ## Chebyshev bases -/
+
+/-- **Chebyshev bases, full statement** (discrete orthogonality of `T_0 … T_{d-1}` at the roots of `T_d`, which makes
+`basis0` — and, with `d-1` roots plus `e_{d-1}`, `basis1` — orthonormal; `basis2/3` differ by unit phases per column).
+Open: the trigonometric sum `Σ_k cos(m θ_k) cos(n θ_k)` is not formalised; tied (Float model) and probed for `d ≤ 12` (`≤ 40` thorough). -/
+def ChebyshevOrthonormal.Statement : Prop :=
+  ∀ d : ℕ, 1 ≤ d → ∀ m < d, ∀ n < d,
+    ∑ k ∈ Finset.range d, chebT (Real.cos (Real.pi * ((k : ℝ) + 1/2) / d)) m * chebT (Real.cos (Real.pi * ((k : ℝ) + 1/2) / d)) n
+      = if m = n then (if m = 0 then (d : ℝ) else d / 2) else 0
+
+/-- proved fragment: the recurrence of the model computes the Chebyshev polynomials, `T_n(cos θ) = cos(n θ)` -/
+theorem chebT_cos (θ : ℝ) (n : ℕ) : chebT (Real.cos θ) n = Real.cos (n * θ) := by
+  induction n using Nat.strong_induction_on with
+  | _ n ih =>
+    match n with
+    | 0 => simp [chebT]
+    | 1 => simp [chebT]
+    | k + 2 =>
+      rw [chebT, ih (k + 1) (by omega), ih k (by omega)]
+      have h1 : ((k + 2 : ℕ) : ℝ) * θ = ((k + 1 : ℕ) : ℝ) * θ + θ := by push_cast; ring
+      have h2 : ((k : ℕ) : ℝ) * θ = ((k + 1 : ℕ) : ℝ) * θ - θ := by push_cast; ring
+      rw [h1, h2, Real.cos_add, Real.cos_sub]; ring
+
+/-! ## tetrahedron POVM -/
+
+/-- **`get_tetrahedron_POVM(n)` resolves the identity for every number of qubits `n`**: `Σ_k M_k = 1`, entry by entry
+(pairs are (re, im)).  Holds in every commutative ring with `4·quarter = 1`, `3·third = 1`; the values of `a = √2/3` and
+`b = √(2/3)` do not matter for this statement. -/
+theorem tetrahedron_povm_resolves {R : Type} [CommRing R] (a b third quarter : R) (h4 : 4 * quarter = 1) (h3 : 3 * third = 1)
+    (n r c : ℕ) (hr : r < 2 ^ n) (hc : c < 2 ^ n) :
+    ∑ k ∈ Finset.range (4 ^ n), tetraN a b third quarter 2 n k r c = (if r = c then 1 else 0, 0) :=
+  tetraN_sum a b third quarter 2 h4 rfl h3 n r c hr hc
+
+/-- **each one-qubit element is `½` times a rank-one projector** (trace `½`, determinant `0`, Hermitian by construction),
+given `a² = 2/9`, `b² = 2/3`: the four Bloch vectors have unit length. -/
+theorem tetrahedron_elements_rank_one (a b : K) (ha : a * a = 2 / 9) (hb : b * b = 2 / 3) (k : ℕ) (hk : k < 4) :
+    let M := tetra1 a b (1/3) (1/4) 2 k
+    (M 0 0).1 + (M 1 1).1 = 1 / 2 ∧ (M 0 0).2 = 0 ∧ (M 1 1).2 = 0 ∧ M 1 0 = ((M 0 1).1, -(M 0 1).2) ∧
+      (M 0 0).1 * (M 1 1).1 - ((M 0 1).1 * (M 0 1).1 + (M 0 1).2 * (M 0 1).2) = 0 := by
+  interval_cases k <;> (refine ⟨?_, ?_, ?_, ?_, ?_⟩ <;> simp [tetra1, tetraVec]) <;>
+    first | (linear_combination (-(1/4 : K)) * ha) | (linear_combination (-(1/16 : K)) * ha - (1/16 : K) * hb) | norm_num
 
 end Numqi.C18
